@@ -332,7 +332,18 @@ class Intervals:
                 return Iv(0, 1, False, False, False, True, True)
             return TOP()
         if k == 'ConditionalOperator':
-            return hull(self.ev(n['then'], env), self.ev(n['else'], env))
+            # each arm is evaluated in the state its branch of the condition leaves (`x < c ? x : c` is a clamp that
+            # also drops a NaN)
+            et = self.refine(n['cond'], True, env)
+            ee = self.refine(n['cond'], False, env)
+            vals = []
+            if et is not None:
+                vals.append(self.ev(n['then'], et))
+            if ee is not None:
+                vals.append(self.ev(n['else'], ee))
+            if not vals:
+                return TOP()
+            return vals[0] if len(vals) == 1 else hull(vals[0], vals[1])
         if k in ('CallExpr', 'CXXMemberCallExpr', 'CXXOperatorCallExpr'):
             return self.call(n, env)
         return TOP()
@@ -570,6 +581,15 @@ class Intervals:
                 if not truth:
                     op = {'<': '>=', '>': '<=', '<=': '>', '>=': '<', '==': '!=', '!=': '=='}[op]
                 return self.refine_cmp(n['ch'][0], op, n['ch'][1], env, clears)
+        if k == 'DeclRefExpr' and n.get('rk') == 'local' and n.get('d') in self.bool_defs():
+            # a named guard (`const bool valid = !(isnan(lat) || isnan(lon)); if (!valid) return ...`): a branch on the
+            # name is a branch on its initialiser while the variables of the initialiser still hold the same values
+            init, dpos, wr = self.bool_defs()[n['d']]
+            upos = (n.get('l', 0), n.get('c', 0))
+            inloop = any(fn.nodes[a]['k'] in ('WhileStmt', 'ForStmt', 'DoStmt') for a in fn.ancestors(cond))
+            if not wr or (not inloop and not any(dpos < w < upos for w in wr)):
+                return self.refine(init, truth, env)
+            return env
         if k == 'CallExpr':
             ce = n.get('callee') or {}
             nm = ce.get('name')
@@ -601,6 +621,51 @@ class Intervals:
 
     def int_type_bounds(self, t):
         return self.INT_BOUNDS.get(t.replace('const ', '').strip())
+
+    def bool_defs(self):
+        """bool local -> (initialiser, position of the declaration, positions of later writes to the initialiser's
+        variables), for locals declared once with an initialiser outside any loop and never assigned again."""
+        if getattr(self, '_bool_defs', None) is not None:
+            return self._bool_defs
+        fn = self.fn
+        out = {}
+        writes = {}          # variable -> [(line, col)] of assignments, ++/--, and by-reference passes
+        for i, n in fn.all_nodes():
+            tgt = None
+            if n['k'] in ('BinaryOperator', 'CompoundAssignOperator') and n.get('op') in ASSIGN_OPS:
+                tgt = self.key(n['ch'][0])
+            elif n['k'] == 'UnaryOperator' and n.get('op') in ('++', '--', '&'):
+                tgt = self.key(n['ch'][0])
+            if tgt:
+                writes.setdefault(tgt, []).append((n.get('l', 0), n.get('c', 0)))
+            if n['k'] in ('CallExpr', 'CXXMemberCallExpr', 'CXXOperatorCallExpr', 'CXXConstructExpr'):
+                pk = (n.get('callee') or {}).get('pk', [])
+                for ai, a in enumerate(n.get('args', [])):
+                    if (pk[ai] if ai < len(pk) else 'r') in ('r', 'p', 'rr'):
+                        t2 = self.key(a)
+                        if t2:
+                            writes.setdefault(t2, []).append((n.get('l', 0), n.get('c', 0)))
+        for i, n in fn.all_nodes():
+            if n['k'] != 'DeclStmt' or any(fn.nodes[a]['k'] in ('WhileStmt', 'ForStmt', 'DoStmt') for a in fn.ancestors(i)):
+                continue
+            for d in n['decls']:
+                if d.get('t', '').replace('const ', '').strip() != 'bool' or d.get('init', -1) is None or d.get('init', -1) < 0:
+                    continue
+                if d['d'] in writes:
+                    continue
+                dpos = (n.get('l', 0), n.get('c', 0))
+                ok = True
+                later = []       # writes to the initialiser's variables after the declaration (source order)
+                for j in fn.walk(d['init']):
+                    m = fn.nodes[j]
+                    if m['k'] == 'DeclRefExpr' and m.get('rk') in ('local', 'param'):
+                        later += [w for w in writes.get(m['d'], ()) if w > dpos]
+                    elif m['k'] in ('CallExpr', 'CXXMemberCallExpr') and (m.get('callee') or {}).get('inrepo'):
+                        ok = False
+                if ok:
+                    out[d['d']] = (d['init'], dpos, later)
+        self._bool_defs = out
+        return out
 
     def refine_cmp(self, l, op, r, env, clears_nan=False):
         fn = self.fn
